@@ -416,4 +416,98 @@ theorem flatten_spec_only (nd : NDArr α) (pS sS sR : List Nat)
     rw [e1, e2] at this
     exact this
 
+/-- **A squeezed single-point position side.**  When the position side is the one-point placeholder
+    (`[[0]]`) and the N-D array carries no axis for it (its shape is the spectroscopic sizes alone, at least
+    two of them), the call succeeds, returns a 1 x M matrix and its element (0, c) is the array element at
+    the spectroscopic indices of column c. -/
+theorem flatten_squeezed_pos (nd : NDArr α) (sS sR : List Nat)
+    (hS : ValidGrid sS sR) (hkS : sS.length ≤ npoints (sizeFn sS) sR) (hneS : 2 ≤ sS.length)
+    (hshape : nd.shape = sS) :
+    ∃ R, reshapeFromNDimsBoth nd [[0]] (gridMatrix sS sR) = .ok R ∧ R.shape = [1, npoints (sizeFn sS) sR] ∧
+      ∀ c, c < npoints (sizeFn sS) sR →
+        R.get [0, c] = nd.get (coords sS sR c (List.range sS.length)) := by
+  have hshape' : nd.shape = ([] : List Nat) ++ sS := by simpa using hshape
+  have hordP : ([] : List Nat).Perm (List.range ([] : List Nat).length) := by simp
+  obtain ⟨htr, hflatT, hcore⟩ := transpose_reshape_core_spec nd [] [] sS sR hS hkS hordP hshape'
+  generalize nd.transpose _ _ = T at htr hflatT hcore
+  have hklen : nd.shape.length = sS.length := by rw [hshape]
+  have hglS : (gridMatrix sS sR).length = sS.length := by simp [gridMatrix]
+  have hm : ncols (gridMatrix sS sR) = npoints (sizeFn sS) sR := by
+    unfold ncols gridMatrix
+    cases hl : sS.length with
+    | zero => omega
+    | succ n => simp [List.range_succ_eq_map, gridRow]
+  have hprod : nd.shape.prod = npoints (sizeFn sS) sR := by rw [hshape]; exact prod_sizes sS sR hS
+  have hMpos : 0 < npoints (sizeFn sS) sR := by
+    obtain ⟨_, hpos, _⟩ := valid_facts sS sR hS
+    exact prod_pos _ sR (fun e he => (hpos e he).2)
+  refine ⟨T.reshape [1, npoints (sizeFn sS) sR], ?_, rfl, ?_⟩
+  · unfold reshapeFromNDimsBoth
+    have h2 : ¬ sS.length < 2 := by omega
+    have hkp : ncols ([[0]] : List (List Nat)) = 1 := rfl
+    have hsq : (1 + sS.length != sS.length) = true := by simp
+    have hs1 : (sS.length * npoints (sizeFn sS) sR == 1) = false := by
+      have : 2 ≤ sS.length * npoints (sizeFn sS) sR :=
+        Nat.le_trans hneS (Nat.le_mul_of_pos_right _ hMpos)
+      simp; omega
+    have htr' : transposeND nd ((getSortOrder (gridMatrix sS sR)).reverse.map (fun x => x)) = .ok T := by
+      have : (getSortOrder (gridMatrix sS sR)).reverse.map (fun x => x) =
+          sigmaOf ([] : List Nat).length [] (getSortOrder (gridMatrix sS sR)) := by simp [sigmaOf]
+      rw [this]; exact htr
+    have hfl : T.flat.length = npoints (sizeFn sS) sR := by
+      have := hflatT; simpa using this
+    simp only [hklen, h2, if_false, bind, Except.bind, pure, Except.pure, hkp, hglS, hm, hprod, List.length_cons,
+      List.length_nil, Nat.zero_add, Nat.one_mul, bne_self_eq_false, Bool.false_eq_true, hsq, hs1, Nat.mul_one,
+      beq_self_eq_true, Bool.true_or, Bool.not_true, Bool.and_false, Bool.and_true, Bool.and_self, if_true,
+      List.reverse_nil, List.nil_append, Nat.add_zero, htr']
+    simp only [reshapeND, hfl, List.prod_cons, List.prod_nil, Nat.mul_one, Nat.one_mul, bne_self_eq_false,
+      Bool.false_eq_true, if_false]
+  · intro c hc
+    have := hcore c [] hc (by simp [Usid.InBounds])
+    simpa [ravelC] using this
+
+/-- **A squeezed single-point spectroscopic side**: the mirror image - the result is N x 1 and its element
+    (r, 0) is the array element at the position indices of row r. -/
+theorem flatten_squeezed_spec (nd : NDArr α) (pS pR : List Nat) (posInds : List (List Nat))
+    (hP : ValidGrid pS pR) (hkP : pS.length ≤ npoints (sizeFn pS) pR) (hneP : 2 ≤ pS.length)
+    (hpos : transposeM posInds = gridMatrix pS pR)
+    (hrows : posInds.length = npoints (sizeFn pS) pR) (hcols : ncols posInds = pS.length)
+    (hshape : nd.shape = pS) :
+    ∃ R, reshapeFromNDimsBoth nd posInds [[0]] = .ok R ∧ R.shape = [npoints (sizeFn pS) pR, 1] ∧
+      ∀ r, r < npoints (sizeFn pS) pR →
+        R.get [r, 0] = nd.get (coords pS pR r (List.range pS.length)) := by
+  have hshape' : nd.shape = pS ++ ([] : List Nat) := by simpa using hshape
+  have hordS : ([] : List Nat).Perm (List.range ([] : List Nat).length) := by simp
+  obtain ⟨htr, _, hflatT, hcore⟩ := transpose_reshape_core nd pS pR [] [] hP hkP hordS hshape'
+  generalize nd.transpose _ _ = T at htr hflatT hcore
+  have hklen : nd.shape.length = pS.length := by rw [hshape]
+  have hprod : nd.shape.prod = npoints (sizeFn pS) pR := by rw [hshape]; exact prod_sizes pS pR hP
+  have hNpos : 0 < npoints (sizeFn pS) pR := by
+    obtain ⟨_, hpos', _⟩ := valid_facts pS pR hP
+    exact prod_pos _ pR (fun e he => (hpos' e he).2)
+  refine ⟨T.reshape [npoints (sizeFn pS) pR, 1], ?_, rfl, ?_⟩
+  · unfold reshapeFromNDimsBoth
+    have h2 : ¬ pS.length < 2 := by omega
+    have hks : ncols ([[0]] : List (List Nat)) = 1 := rfl
+    have hsq : (pS.length + 1 != pS.length) = true := by simp
+    have hp1 : (npoints (sizeFn pS) pR * pS.length == 1) = false := by
+      have : 2 ≤ npoints (sizeFn pS) pR * pS.length :=
+        Nat.le_trans hneP (Nat.le_mul_of_pos_left _ hNpos)
+      simp; omega
+    have htr' : transposeND nd (getSortOrder (gridMatrix pS pR)).reverse = .ok T := by
+      have : (getSortOrder (gridMatrix pS pR)).reverse = sigmaOf pS.length (getSortOrder (gridMatrix pS pR)) [] := by
+        simp [sigmaOf]
+      rw [this]; exact htr
+    have hfl : T.flat.length = npoints (sizeFn pS) pR := by
+      have := hflatT; simpa using this
+    simp only [hklen, h2, if_false, bind, Except.bind, pure, Except.pure, hks, hrows, hcols, hprod, List.length_cons,
+      List.length_nil, Nat.zero_add, Nat.mul_one, bne_self_eq_false, Bool.false_eq_true, hsq, hp1,
+      beq_self_eq_true, Bool.or_true, Bool.not_true, Bool.and_false, Bool.and_true, Bool.and_self, if_true,
+      List.reverse_nil, List.map_nil, List.append_nil, hpos, htr']
+    simp only [reshapeND, hfl, List.prod_cons, List.prod_nil, Nat.mul_one, bne_self_eq_false,
+      Bool.false_eq_true, if_false]
+  · intro r hr
+    have := hcore r [] hr (by simp [Usid.InBounds])
+    simpa [ravelC] using this
+
 end Usid.C10
